@@ -17,7 +17,7 @@ from props import _c07_common as common
 
 ID = "C07"
 RULE = ("Stochastic model programs with pub/sub fan-out: C02-style handlers + random delays and observations drawn "
-        "from shared seeded streams + handlers that fire one of 4 bus event types to <=5 listeners subscribed in a "
+        "from shared seeded streams and from five kinds of distributions on them (long-lived distribution objects get their re-seeded stream assigned again in the second-replication variant) + handlers that fire one of 4 bus event types to <=5 listeners subscribed in a "
         "generated order (stream 0 optionally the default stream of a StreamInformation() created by the model; seeds installed directly or through a StreamSeedUpdater with a seed table and a user-defined "
         "order-sensitive fallback updater, or the library's default fallback after earlier update_seeds calls for other replications), whose notify scripts draw from the shared streams, schedule events, make observations and "
         "subscribe/unsubscribe listeners (handlers do so too). "
@@ -65,6 +65,8 @@ def _listener_script(clock):
         st.tuples(st.just("rel_rand"), stream, scale, node, PRIO),
         st.tuples(st.just("rel_rand"), stream, scale, node, PRIO),
         st.tuples(st.just("draw"), stream, st.sampled_from(["f", "b", "i"])),
+        st.tuples(st.just("draw_dist"), stream, st.integers(0, 4)),
+        st.tuples(st.just("rel_dist"), stream, st.integers(0, 4), scale, node, PRIO),
         st.tuples(st.just("obs_t_rand"), stream),
         st.tuples(st.just("obs_p_rand"), stream),
         st.tuples(st.just("obs_c"), st.integers(-2, 3)),
@@ -146,8 +148,8 @@ def _nontrivial(case, d):
             continue
         seen.add(key)
         sc = case["bus"]["listeners"][li % nl]["script"]
-        draws = any(a[0] in ("rel_rand", "draw", "obs_t_rand", "obs_p_rand") for a in sc)
-        sched = any(a[0] in ("rel_rand", "now") for a in sc)
+        draws = any(a[0] in ("rel_rand", "draw", "obs_t_rand", "obs_p_rand", "draw_dist", "rel_dist") for a in sc)
+        sched = any(a[0] in ("rel_rand", "now", "rel_dist") for a in sc)
         if draws and sched:
             by_type[ti % 4] = by_type.get(ti % 4, 0) + 1
     fired = {e[1] for e in d["deliveries"] if e[0] == "FIRE"}
